@@ -103,8 +103,10 @@ type World struct {
 	SkipKnown bool // when true an excluded known finding ends the case quietly
 
 	// scratch shared between generators
-	usedOrigin []originRef
-	hashPool   [][]byte
+	usedOrigin     []originRef
+	hashPool       [][]byte
+	lastDigest     []byte
+	lastDigestStep int
 }
 
 type originRef struct{ ID, Source, Contract string }
